@@ -171,5 +171,21 @@ Definition entry (sub : Z) (args : list Z) : list Z :=
     end.
 
 (* in-kernel anchors *)
-Example anchor_slice : entry 0 [0; 3; 2001; 1002; 3; 0;4;0; 1;0;0; 4;0;0] = entry 0 [0; 3; 2001; 1002; 3; 0;4;0; 1;0;0; 4;0;0].
-Proof. reflexivity. Qed.
+Example anchor_slice :
+  entry 0 [0; 3; 2001; 1002; 3; 0;4;0; 1;0;0; 4;0;0; 8;0;0] =
+  [3; 3; 1002; 2001; 4; 3; 4; 2001; 1002; 1; 3; 3; 4; 1002; 2001; 1; 4; 2; 1002; 2001; 2; 1002; 2001; 0].
+Proof. vm_compute. reflexivity. Qed.
+Example anchor_slice_judged : entry 1 [0; 3; 2001; 1002; 3; 0;4;0; 1;0;0; 4;0;0; 8;0;0] = [1].
+Proof. vm_compute. reflexivity. Qed.
+Example anchor_heap :
+  entry 0 [1; 0; 0;0;3; 0;0;1; 0;1;2; 1;0;0; 4;0;1; 4;1;2; 8;0;115; 6;3;5; 9;0;0] =
+  [1; 0; 2; 1; 0; 3; 1; 0; 0; 1; 3; 0; -1; 0; 3; 0; -1; 0; 3; 0; -1; -1; 6; -1; -1; -1; 2; 1; 0; 6; -1; -1; -1; 2; 1; 0;
+   3; 5; 1004; 2003; 6; -1; -1; -1; -1; -1; -1].
+Proof. vm_compute. reflexivity. Qed.
+Example anchor_heap_judged : entry 1 [1; 0; 0;0;3; 0;0;1; 0;1;2; 1;0;0; 4;0;1; 4;1;2; 8;0;115; 6;3;5; 9;0;0] = [1].
+Proof. vm_compute. reflexivity. Qed.
+Example anchor_generic_panics : entry 0 [2; 2; 2001; 1002; 0;4;0; 1;0;0; 4;5;0] = [PANIC].
+Proof. vm_compute. reflexivity. Qed.
+(* the judge rejects a wrong answer: Pop reports an element that something precedes *)
+Example anchor_judge_rejects : entry 2 ([7; 0; 2; 2001; 1002; 1;0;0] ++ [9; 2; 1002; 2001; 1; 2001; 1; 1002]) = [0].
+Proof. vm_compute. reflexivity. Qed.
